@@ -62,10 +62,13 @@ func cmdVerify(args []string) int {
 		}
 	}
 	for k := range prog.implContracts {
+		if *funcs == "" && prog.Contracts[k] == nil {
+			continue // unannotated implementations are verified on request only
+		}
 		if *funcs != "" {
 			ok := false
 			for _, f := range strings.Split(*funcs, ",") {
-				if k == f || strings.HasPrefix(k, f) {
+				if k == f || (strings.HasPrefix(k, f) && prog.Contracts[k] != nil) || (strings.HasSuffix(f, "*") && strings.HasPrefix(k, strings.TrimSuffix(f, "*"))) {
 					ok = true
 				}
 			}
